@@ -413,6 +413,8 @@ def obligations(tier, seed):
     for f in range(len(ALPHABET)):
         obs.append(dict(name='parser_k%d_first_%d' % (k, f), func='h_parser', param=dict(k=k, first=f),
                         timeout=280 if q else 3000))
+    for n0 in range(len(SEQ_NAMES)):
+        obs.append(dict(name='lookup_sequence_%d' % n0, func='h_lookup_sequence', param=dict(k=3, fix=dict(n0=n0)), timeout=280 if q else 1200))
     for i in range(len(CONV)):
         obs.append(dict(name='convert_%d' % i, func='h_convert', param=dict(i=i), timeout=280 if q else 1200))
     return obs
@@ -474,3 +476,34 @@ def validate(tier, seed):
             bad_tok += 1
     res.append(dict(name='injected token lists vs regex tokeniser', ok=bad_tok == 0, n=len(samples), detail=''))
     return res
+
+
+SEQ_NAMES = ['m', 'mm', 'kmm', 'mol', 'mmol', 'kmmol', 'Pa', 'aPa', 'daPa', 'dam', 'kJ', 'MkJ', 'zz']
+
+
+def h_lookup_sequence(d: bool):
+    """
+    post: _[0]
+    """
+    begin()
+    # what a name means must not depend on which names were looked up before (the unit table is process-global)
+    k = PARAM.get('k', 3)
+    names = [SEQ_NAMES[choose('n%d' % i, len(SEQ_NAMES))] for i in range(k)]
+    for nm in names:
+        exp = expected_reading(nm)
+        try:
+            got = DB.units_db.lookup(nm)
+            val = got.value
+            status = 'value'
+        except UnitsParseError:
+            status, val = 'error', None
+        except Exception as e:
+            return finish(False, 'lookup_sequence: %r raised %s after %r' % (nm, type(e).__name__, names))
+        if exp is None:
+            if status != 'error':
+                return finish(False, 'lookup_sequence: unknown name %r accepted (value %r) in the sequence %r' % (nm, val, names))
+        else:
+            want = (SI_PREFIX[exp[0]] if exp[0] else 1.0) * SI[exp[1]][0]
+            if status != 'value' or abs(val - want) > 1e-9 * abs(want):
+                return finish(False, 'lookup_sequence: %r gives %r, expected %r, in the sequence %r' % (nm, val, want, names))
+    return finish(True, 'ok')
